@@ -43,6 +43,8 @@ def make_curve_set(rng, mix, n_curves=None, n_points=None, ctype="weight", t_cen
     n_points = n_points or rng.randrange(4, 7)
     t_center = t_center or rng.uniform(300.0, 350.0)
     temps = [t_center] if n_curves == 1 else sorted(t_center + 12.0 * (j - (n_curves - 1) / 2) for j in range(n_curves))
+    if n_curves >= 2 and rng.random() < 0.12:
+        temps = [t_center] * n_curves          # several curves measured at ONE temperature: still a multi-curve set
     al = [gen.logu(rng, 1e-3, 0.2), gen.logu(rng, 1e-5, 1e-2)]
     a = [rng.uniform(-2.0, 2.0), rng.uniform(-2.0, 2.0)]
     ea = [rng.uniform(5000.0, 40000.0), rng.uniform(5000.0, 60000.0)]
@@ -68,7 +70,8 @@ def make_curve_set(rng, mix, n_curves=None, n_points=None, ctype="weight", t_cen
         for ix, xw in enumerate(xs):
             cw = pv.Composition(p=xw, type="weight")
             comps.append(cw if ctype == "weight" else cw.to_molar(mix))
-            perms.append(tuple(pv.Permeance(value=0.0 if (it, ix, i) in zeros else al[i] * math.exp(a[i] * xw - ea[i] / R * (1 / t - 1 / t_center)))
+            sct = 1.0 + 0.03 * it if len(set(temps)) < len(temps) else 1.0      # replicate curves differ by a few per cent
+            perms.append(tuple(pv.Permeance(value=0.0 if (it, ix, i) in zeros else sct * al[i] * math.exp(a[i] * xw - ea[i] / R * (1 / t - 1 / t_center)))
                                for i in range(2)))
         curves.append(pv.DiffusionCurve(mixture=mix, membrane_name="verif_membrane", feed_temperature=t,
                                         feed_compositions=comps, permeances=perms))
@@ -123,6 +126,19 @@ def make_program(rng, T0, horizon):
         c1 = rng.uniform(2.0, 20.0)
         c0 = T0 / math.log(c1)
         co = [c0, c1, (math.exp((T0 + dT) / c0) - c1) / h]
+    if rng.random() < 0.3:
+        # a programme object that was constructed for ANOTHER schedule and re-tuned afterwards (coefficients assigned element by element
+        # or as a new list, the type re-assigned): it describes what it holds now
+        other = [v * rng.uniform(0.9, 1.1) + rng.uniform(-1.0, 1.0) for v in co]
+        if rng.random() < 0.5:
+            prog = pv.TemperatureProgram(coefficients=other, type=typ)
+            for j, v in enumerate(co):
+                prog.coefficients[j] = v
+        else:
+            prog = pv.TemperatureProgram(coefficients=other + [0.0] * rng.randrange(0, 2), type=rng.choice(["polynomial", "exponential", "logarithmic"]))
+            prog.coefficients = list(co)
+            prog.type = typ
+        return prog
     return pv.TemperatureProgram(coefficients=co, type=typ)
 
 
